@@ -81,10 +81,17 @@ impl<'a> ParseChain<ActionExprChain> for ActionExprChainBuilder<'a> {
                     .cloned()
                     .expect("join: Failed to extract first expr of initial expr. This's a bug, please report it.")
                 {
-                    if let Pat::Ident(pat) = &let_expr.pat {
-                        chain.set_id(Some(pat.clone()));
-                    } else {
-                        return Err(input.error("Incorrect `let` pattern"));
+                    match &let_expr.pat {
+                        //
+                        // `syn` takes any word for the name of an identifier pattern, keywords included
+                        // (`let move = ..`), which can't be bound.
+                        //
+                        Pat::Ident(pat)
+                            if syn::parse_str::<syn::Ident>(&pat.ident.to_string()).is_ok() =>
+                        {
+                            chain.set_id(Some(pat.clone()));
+                        }
+                        _ => return Err(input.error("Incorrect `let` pattern")),
                     }
 
                     action_expr = action_expr
